@@ -17,7 +17,7 @@ RULE = ('every string of length <= 4 (5 thorough) over {a, b, A, space, e-acute}
         'decimal formatter (half away from zero). distinct_nontrivial = cases with out-of-range positions, empty results, '
         'repeated characters or rounding ties/carries.')
 ASSUMPTIONS = ['LEN of a number is not judged (the statement lists the slicing functions; tests/lib/test_text.py pins len_(3.0) == 3)',
-               'SUBSTITUTE with an empty or self-overlapping search string is not judged',
+               'SUBSTITUTE with a self-overlapping search string is not judged (an empty one changes nothing)',
                'TEXT formats containing # are judged by the numeric value of the rendering where optional digits are involved; '
                'negative values that round to zero are skipped']
 GROUP = ('fn', 'verdict')
